@@ -6,7 +6,7 @@ from props.c12 import PoolRun, gen_pool_plan
 from worlds.full import ReqObs
 
 ID = 'C45'
-TIERS = {'quick': {'runs': 3000, 'budget_s': 55, 'wall_cap': 120, 'block': 50},
+TIERS = {'quick': {'runs': 9000, 'budget_s': 55, 'wall_cap': 120, 'block': 50},
          'thorough': {'runs': 300000, 'budget_s': 840, 'wall_cap': 120, 'block': 50}}
 SHRINK_LISTS = ['requests', 'faults']
 COVERAGE_RULE = ('one run = real Cluster/Session over 1-3 fake nodes with request traffic, node crashes/restarts (reconnection '
@@ -60,7 +60,28 @@ def gen_plan(rng, tier):
         p['session_keyspace'] = 'ks1'
         p['use_delay'] = rng.choice([0.0, 0.02, 0.1, 0.4])
     p['tcp_rto'] = 30.0
+    if n > 1 and not sd_during_connect(p) and rng.random() < 0.2:
+        # a host comes back (slowly: its new pool takes a while to build), the session keyspace is switched while that pool is
+        # being built, and shutdown arrives while the new pool is catching up with the switch
+        node = rng.randrange(1, n)
+        t_up = rng.choice([0.5, 0.8])
+        t_sw = round(t_up + 0.02 + rng.choice([0.02, 0.05, 0.1, 0.2, 0.4]), 3)
+        p['faults'] = [{'at': 0.05, 'kind': 'crash', 'node': node, 'how': 'rst', 'announce': 0.02},
+                       {'at': t_up, 'kind': 'restart', 'node': node, 'announce': 0.01}]
+        p['slow_node'] = {'node': node, 'mult': rng.choice([10, 30, 60])}
+        p['session_keyspace'] = 'ks1'
+        p['use_delay'] = rng.choice([0.0, 0.05, 0.2])
+        p['switch'] = {'at': t_sw, 'ks': 'ks2'}
+        p['cluster']['keyspaces'] = dict(p['cluster'].get('keyspaces') or {}, ks1={'class': 'org.apache.cassandra.locator.SimpleStrategy', 'replication_factor': '1'},
+                                         ks2={'class': 'org.apache.cassandra.locator.SimpleStrategy', 'replication_factor': '1'})
+        p['shutdown'] = {'what': rng.choice(['cluster', 'session']), 'at': round(t_sw + rng.choice([0.005, 0.02, 0.05, 0.1, 0.3]), 3),
+                         'after_requests': rng.choice([0, 1])}
+        p['exec']['reconnect_delay'] = 5.0
     return p
+
+
+def sd_during_connect(p):
+    return bool(p.get('shutdown', {}).get('during_connect'))
 
 
 class ShutdownRun(PoolRun):
@@ -71,7 +92,22 @@ class ShutdownRun(PoolRun):
             w.net.slow[w.fc.nodes[plan['slow_node']['node']].addr] = plan['slow_node']['mult']
         if sd.get('during_connect'):
             w.spawn(self.early_shutter, 'shutter', sd)
+        if plan.get('switch'):
+            w.spawn(self.switcher, 'switcher', plan['switch'])
         PoolRun.main(self)
+
+    def switcher(self, sw):
+        w = self.w
+        while not self.st.get('started') and not self.connect_error:
+            w.sleep(0.01)
+        w.sleep(sw['at'])
+        if w.session is None:
+            return
+        w.sim.probe('keyspace_switched_during_run')
+        try:
+            w.session.set_keyspace(sw['ks'])
+        except Exception as e:
+            self.st['switch_exc'] = repr(e)
 
     def early_shutter(self, sd):
         w, sim = self.w, self.w.sim
